@@ -3,7 +3,7 @@
    Print Assumptions.  V is an arbitrary type of values (hence the reals), nrm an arbitrary
    norm function, wr an arbitrary per-representation storage map: nothing but positions matters. *)
 From DF Require Import Prelude Constants_gen Region Mesh Subregions Vtk C16_layout C16_locate.
-From DF Require Import C16_roundtrip C16_sidecar C16_legacy C16_witness.
+From DF Require Import C16_roundtrip C16_sidecar C16_legacy C16_witness CheckSound Check_C16 C16_sound.
 Open Scope Q_scope.
 
 (* Clause 1 (all sizes, all 3-d meshes, 1..any components, any labels that are not reserved):
@@ -213,3 +213,144 @@ Theorem C16_txt_subregions_refuted :
     side = Some (subs (vf_mesh f)) /\ subs (vf_mesh f) <> [].
 Proof. exact txt_subregions_refuted. Qed.
 Print Assumptions C16_txt_subregions_refuted.
+
+(* ---------- checker soundness: an accepted case certifies the relation between the OBSERVED output
+   and the model's value (relations grid_sim / fld_sim / res_sim are spelled out in proofs/C16_sound.v:
+   Leibniz equality on integers, strings, flags; Qeq on numbers in the exact regime; distance bounds in
+   the scale regime and for text; stored norm v against the sum of squares s: 0 <= v, v*v == s) ---------- *)
+Theorem C16_check_grid_sound : forall exact pyth p1 p2 n_ nv vd vals valid obs probes,
+  check_C16 (CGrid exact pyth p1 p2 n_ nv vd vals valid obs probes) = true ->
+  exists f, mkfield p1 p2 n_ [] nv vd vals valid = OK f /\
+    res_sim (grid_sim false exact pyth) (q_to_vtk f) obs /\
+    forall g pr mid, q_to_vtk f = OK g -> In pr probes -> strictly_inside g (fst pr) = Some mid ->
+      fst (snd pr) = Z.of_nat mid /\ snd (snd pr) = Z.of_nat mid.
+Proof. exact check_grid_sound. Qed.
+Print Assumptions C16_check_grid_sound.
+
+Theorem C16_check_round_sound : forall exact pyth rep p1 p2 n_ nv vd vals valid subs_ save_sub stale file obs,
+  check_C16 (CRound exact pyth rep p1 p2 n_ nv vd vals valid subs_ save_sub stale file obs) = true ->
+  exists f, mkfield p1 p2 n_ subs_ nv vd vals valid = OK f /\
+    match q_write f rep save_sub, file with
+    | OK (g, side), Some o =>
+        grid_sim (is_txt rep) exact pyth g o /\
+        res_sim (fld_sim true)
+          (q_from_vtk (to_grid o)
+             (sidecar_after (option_map (map (mk_sub (vf_mesh f))) stale) save_sub (subs (vf_mesh f)))) obs
+    | Err _, None => obs = None
+    | _, _ => False
+    end.
+Proof. exact check_round_sound. Qed.
+Print Assumptions C16_check_round_sound.
+
+Theorem C16_check_read_sound : forall g side obs,
+  check_C16 (CRead g side obs) = true ->
+  res_sim (fld_sim true) (q_from_vtk (to_grid g) (option_map (map (mk_sub m0)) side)) obs.
+Proof. exact check_read_sound. Qed.
+Print Assumptions C16_check_read_sound.
+
+(* the left disjunct is the known finding C16-legacy-far-single-point (scale regime only) *)
+Theorem C16_check_legacy_sound : forall exact coords vec rows side obs,
+  check_C16 (CLegacy exact coords vec rows side obs) = true ->
+  (exact = false /\ far_single coords = true /\ obs = None) \/
+  res_sim (fld_sim exact) (q_from_legacy (mkLegacy coords vec rows) (option_map (map (mk_sub m0)) side)) obs.
+Proof. exact check_legacy_sound. Qed.
+Print Assumptions C16_check_legacy_sound.
+
+Theorem C16_check_both_sound : forall a b,
+  check_C16 (CBoth a b) = true -> check_C16 a = true /\ check_C16 b = true.
+Proof. exact check_both_sound. Qed.
+Print Assumptions C16_check_both_sound.
+
+(* a whole shard: no failing index means every case was accepted *)
+Theorem C16_shard_verdict : forall cases k,
+  failing k (map check_C16 cases) = [] -> forall c, In c cases -> check_C16 c = true.
+Proof. exact (failing_nil_all check_C16). Qed.
+Print Assumptions C16_shard_verdict.
+
+(* the field the model reader returns has a 3-d region, so the corner comparison of fld_sim (which
+   runs over the axes of the model region) covers every axis of the three-coordinate observation *)
+Theorem C16_read_back_mesh : forall g side f, q_from_vtk g side = OK f ->
+  n (vf_mesh f) = map (fun k => k - 1)%Z (g_dims g) /\
+  length (pmin (reg (vf_mesh f))) = 3%nat /\ length (pmax (reg (vf_mesh f))) = 3%nat.
+Proof. exact from_vtk_mesh. Qed.
+Print Assumptions C16_read_back_mesh.
+
+(* ---------- transfer: the C16 theorems stated about the OBSERVED output ---------- *)
+(* Clause 1 (C16_locate) on the grid Field.to_vtk returned, exact regime: the cell a VTK consumer locates
+   at p in the OBSERVED vertex coordinates is the mesh cell of p, the OBSERVED field / valid arrays hold
+   there that cell's value and flag, the OBSERVED norm there is the non-negative root of the sum of squares *)
+Theorem C16_accepted_grid_locate : forall pyth (x0 y0 z0 x1 y1 z1 : Q) (kx ky kz : Z) (nv : nat)
+  (vd : option (list string)) (vals : list Q) (valid : list bool) ods ocs oarrs probes (px py pz : Q),
+  x0 < x1 -> y0 < y1 -> z0 < z1 -> (0 < kx)%Z -> (0 < ky)%Z -> (0 < kz)%Z ->
+  ((1 < nv)%nat -> exists l, vd = Some l /\ length l = nv) ->
+  (forall l, vd = Some l -> Forall (fun s => reserved s = false) l) ->
+  x0 <= px /\ px < x1 -> y0 <= py /\ py < y1 -> z0 <= pz /\ pz < z1 ->
+  check_C16 (CGrid true pyth [x0; y0; z0] [x1; y1; z1] [kx; ky; kz] nv vd vals valid
+                   (Some (ods, ocs, oarrs)) probes) = true ->
+  let m := mesh3 x0 y0 z0 x1 y1 z1 kx ky kz in
+  let ny := Z.to_nat ky in let nz := Z.to_nat kz in
+  ods = [kx + 1; ky + 1; kz + 1]%Z /\ Forall2 (Forall2 Qeq) (vertices m) ocs /\
+  exists iz jz kz_,
+    point2index m [px; py; pz] = OK [iz; jz; kz_] /\
+    let i := Z.to_nat iz in let j := Z.to_nat jz in let k := Z.to_nat kz_ in
+    let id := cell_id (Z.to_nat kx) ny i j k in
+    q_locate (to_grid (ods, ocs, oarrs)) [px; py; pz] = Some id /\
+    (exists nc ol, lookup_array "field" oarrs = Some (nc, ol) /\
+       Forall2 Qeq (tuple_at 0 ny nz nv vals i j k) (tuple_of 0 (nc, ol) id)) /\
+    (exists nc ol, lookup_array "valid" oarrs = Some (nc, ol) /\
+       Forall2 Qeq [if nth (cpos ny nz 1 i j k 0) valid false then 1 else 0] (tuple_of 0 (nc, ol) id)) /\
+    (exists ol, lookup_array "norm" oarrs = Some (1%nat, ol) /\
+       0 <= nth id ol 0 /\
+       (pyth = true -> nth id ol 0 * nth id ol 0 == sumsq (tuple_at 0 ny nz nv vals i j k))).
+Proof. exact accepted_grid_locate. Qed.
+Print Assumptions C16_accepted_grid_locate.
+
+Example C16_accepted_grid_instance :
+  check_C16 (CGrid true true [0; 0; 0] [2; 1; 1] [2; 1; 1]%Z 1 None [5; -7] [true; false]
+     (Some ([3; 2; 2]%Z, [[0; 1; 2]; [0; 1]; [0; 1]],
+            [("norm"%string, (1%nat, [5; 7])); ("field"%string, (1%nat, [5; -7]));
+             ("valid"%string, (1%nat, [1; 0]))]))
+     [([3 # 2; 1 # 2; 1 # 2], (1, 1)%Z)]) = true.
+Proof. exact accepted_grid_instance. Qed.
+Print Assumptions C16_accepted_grid_instance.
+
+(* Clause 3 (C16_legacy) on the field the implementation's legacy reader returned *)
+Theorem C16_accepted_legacy : forall (x0 y0 z0 x1 y1 z1 : Q) (kx ky kz : Z) (vec : bool) (rows : list (list Q)) obs,
+  x0 < x1 -> y0 < y1 -> z0 < z1 -> (2 <= kx)%Z -> (2 <= ky)%Z -> (2 <= kz)%Z ->
+  let nx := Z.to_nat kx in let ny := Z.to_nat ky in let nz := Z.to_nat kz in
+  let dim := if vec then 3%nat else 1%nat in
+  (nx * ny * nz <= length rows)%nat ->
+  forallb (fun row => (length row =? dim)%nat) (firstn (nx * ny * nz) rows) = true ->
+  check_C16 (CLegacy true [cells_axis x0 x1 kx; cells_axis y0 y1 ky; cells_axis z0 z1 kz] vec rows None obs) = true ->
+  exists lo0 lo1 lo2 hi0 hi1 hi2 vd vals sb,
+    obs = Some ([lo0; lo1; lo2], [hi0; hi1; hi2], [kx; ky; kz], dim, vd, vals, repeat true (nx * ny * nz), sb) /\
+    lo0 == x0 /\ lo1 == y0 /\ lo2 == z0 /\ hi0 == x1 /\ hi1 == y1 /\ hi2 == z1 /\
+    length vals = (nx * ny * nz * dim)%nat /\
+    forall i j k c, (i < nx)%nat -> (j < ny)%nat -> (k < nz)%nat -> (c < dim)%nat ->
+      nth (cpos ny nz dim i j k c) vals 0 == nth c (nth (cell_id nx ny i j k) rows []) 0.
+Proof. exact accepted_legacy. Qed.
+Print Assumptions C16_accepted_legacy.
+
+Example C16_accepted_legacy_instance :
+  check_C16 (CLegacy true [cells_axis 0 2 2; cells_axis 0 3 3; cells_axis 1 2 2] false
+                     [[1]; [2]; [3]; [4]; [5]; [6]; [7]; [8]; [9]; [10]; [11]; [12]] None
+     (Some ([0; 0; 1], [2; 3; 2], [2; 3; 2]%Z, 1%nat, None, [1; 7; 3; 9; 5; 11; 2; 8; 4; 10; 6; 12],
+            repeat true 12, []))) = true.
+Proof. exact accepted_legacy_instance. Qed.
+Print Assumptions C16_accepted_legacy_instance.
+
+(* Clause 2, the mesh, on the observation: the written file has n + 1 points per axis and the field read
+   back from it has the n that was written (every representation, both regimes, any side-car state) *)
+Theorem C16_accepted_round_n : forall exact pyth rep p1 p2 n_ nv vd vals valid subs_ save_sub stale
+  ods ocs oarrs lo hi ns nv' vd' vals' valid' sb,
+  check_C16 (CRound exact pyth rep p1 p2 n_ nv vd vals valid subs_ save_sub stale
+                    (Some (ods, ocs, oarrs)) (Some (lo, hi, ns, nv', vd', vals', valid', sb))) = true ->
+  ods = map (fun k => k + 1)%Z n_ /\ ns = n_.
+Proof. exact accepted_round_n. Qed.
+Print Assumptions C16_accepted_round_n.
+
+Theorem C16_accepted_read_n : forall ods ocs oarrs side lo hi ns nv vd vals valid sb,
+  check_C16 (CRead (ods, ocs, oarrs) side (Some (lo, hi, ns, nv, vd, vals, valid, sb))) = true ->
+  ns = map (fun k => k - 1)%Z ods.
+Proof. exact accepted_read_n. Qed.
+Print Assumptions C16_accepted_read_n.
